@@ -11,7 +11,7 @@ from extract import ExtractionError
 
 LOWERING = "prqlc/prqlc/src/semantic/lowering.rs"
 
-LABELS = ["LR1", "LR1i", "LR2", "LR3"]
+LABELS = ["LR3i", "LR1", "LR1i", "LR2", "LR3"]
 FUNCTIONS = ["lower_literal_row"]
 RLIMIT = 120
 
@@ -102,7 +102,18 @@ def build(X):
     f.rewrite_re("R5", r"fields\s*\.iter\(\)\s*\.position\(\|f\| f\.as_ref\(\)\.is_some_and\(\|f\| f\.alias\.as_ref\(\) == name\)\)", "position_named(&fields, name)", count=1,
                  why="Iterator::position: first field that is still there and carries the name")
     f.rewrite_re("R5", r"fields\[p\]\.take\(\)", "take_at(&mut fields, p)", count=1, why="IndexMut + Option::take")
-    f.rewrite_re("R8", r"field\.ok_or_else\(same_fields\)\?", "(match field { Some(verif_v) => verif_v, None => { return Err(same_fields()); } })", count=1, why="Option::ok_or_else + `?`")
+    # `field.ok_or_else(<how the error is made>)?`: whatever builds the error (the closure same_fields, or a closure that decorates it) - an absent field leaves the function with an error
+    k = f.text.find("field.ok_or_else(")
+    if k < 0:
+        raise ExtractionError("lower_literal_row: `field.ok_or_else(..)?` not found")
+    j, depth = k + len("field.ok_or_else("), 1
+    while depth:
+        depth += {"(": 1, ")": -1}.get(f.text[j], 0)
+        j += 1
+    if f.text[j:j + 1] != "?":
+        raise ExtractionError("lower_literal_row: `field.ok_or_else(..)` is not followed by `?`")
+    f.text = f.text[:k] + "(match field { Some(verif_v) => verif_v, None => { return Err(same_fields()); } })" + f.text[j + 1:]
+    f.rewrites.append({"rule": "R8", "what": "`field.ok_or_else(<error>)?` desugared to the match it is; the error value itself is opaque"})
     f.rewrite_re("R5", r"field\.try_cast\(\s*\|x\| x\.into_literal\(\),\s*Some\(\"relation literal\"\),\s*\"literals\",?\s*\)", "cast_literal(field)", count=1, why="try_cast(into_literal)")
     f.rewrite_re("R11", r"for \(index, column\) in columns\.iter\(\)\.enumerate\(\) \{", "let mut index: usize = 0;\n    while index < columns.len() {\n        let column = &columns[index];", count=1,
                  why="`for (index, column) in columns.iter().enumerate()` as the counter loop it is")
@@ -121,7 +132,9 @@ def build(X):
     f.insert_before("let mut index: usize = 0;", "let ghost orig = row.kind->Tuple_0@;", "ghost: the fields as written", nth=None)
     f.loop_contract(1, """
         invariant
-            index <= columns@.len(), values@.len() == index, fields@.len() == orig.len(), orig.len() == columns@.len(), orig == row.kind->Tuple_0@, row.kind is Tuple,
+            index <= columns@.len(), values@.len() == index, fields@.len() == orig.len(), orig == row.kind->Tuple_0@, row.kind is Tuple,
+            // the row has one field per column: what makes `fields[index]` an index in range for a row matched by position
+            orig.len() == columns@.len(), // @LR3i
             by_position == unnamed_row(orig), same_fields.requires(()),
             forall|p: int| 0 <= p < fields@.len() && (#[trigger] fields@[p]) is Some ==> fields@[p] == Some(orig[p]),
             by_position ==> forall|p: int| index <= p < fields@.len() ==> (#[trigger] fields@[p]) is Some,
